@@ -47,6 +47,27 @@ func (s *SubscriptionService) DeleteSubscription(id uint32) {
 
 }
 
+const (
+	// publishing intervals the subscription ticker works with, in milliseconds
+	minPublishingInterval = 1.0
+	maxPublishingInterval = float64(24 * time.Hour / time.Millisecond)
+)
+
+// revisePublishingInterval returns the publishing interval the server grants for a
+// requested one (Part 4, 5.13.2: the server revises values it cannot support).
+// time.NewTicker panics for a non-positive duration, so 0, negative, NaN and
+// sub-millisecond requests are raised to the minimum; values whose nanosecond count
+// would overflow are lowered to the maximum.
+func revisePublishingInterval(requested float64) float64 {
+	if !(requested >= minPublishingInterval) { // also true for NaN
+		return minPublishingInterval
+	}
+	if requested > maxPublishingInterval {
+		return maxPublishingInterval
+	}
+	return requested
+}
+
 // https://reference.opcfoundation.org/Core/Part4/v105/docs/5.13.2
 func (s *SubscriptionService) CreateSubscription(sc *uasc.SecureChannel, r ua.Request, reqID uint32) (ua.Response, error) {
 	if s.srv.cfg.logger != nil {
@@ -82,7 +103,7 @@ func (s *SubscriptionService) CreateSubscription(sc *uasc.SecureChannel, r ua.Re
 	sub.Session = session
 	sub.Channel = sc
 	sub.ID = newsubid
-	sub.RevisedPublishingInterval = req.RequestedPublishingInterval
+	sub.RevisedPublishingInterval = revisePublishingInterval(req.RequestedPublishingInterval)
 	sub.RevisedLifetimeCount = req.RequestedLifetimeCount
 	sub.RevisedMaxKeepAliveCount = req.RequestedMaxKeepAliveCount
 
@@ -100,7 +121,7 @@ func (s *SubscriptionService) CreateSubscription(sc *uasc.SecureChannel, r ua.Re
 			AdditionalHeader:   ua.NewExtensionObject(nil),
 		},
 		SubscriptionID:            uint32(newsubid),
-		RevisedPublishingInterval: req.RequestedPublishingInterval,
+		RevisedPublishingInterval: sub.RevisedPublishingInterval,
 		RevisedLifetimeCount:      req.RequestedLifetimeCount,
 		RevisedMaxKeepAliveCount:  req.RequestedMaxKeepAliveCount,
 	}
@@ -313,7 +334,7 @@ func NewSubscription() *Subscription {
 }
 
 func (s *Subscription) Update(req *ua.ModifySubscriptionRequest) {
-	s.RevisedPublishingInterval = req.RequestedPublishingInterval
+	s.RevisedPublishingInterval = revisePublishingInterval(req.RequestedPublishingInterval)
 	s.RevisedLifetimeCount = req.RequestedLifetimeCount
 	s.RevisedMaxKeepAliveCount = req.RequestedMaxKeepAliveCount
 }
